@@ -1,16 +1,21 @@
 """C18 — grid games and factor tables.  ALG-5 factor-table algebra in logit space, terminal handling (guarded returns),
-one-step clamp (interval reasoning on one expression), constraint tables, unconditional swap exclusion."""
+one-step clamp (interval reasoning on one expression), constraint tables, unconditional swap exclusion.
+
+Locals are identified by their role (the loop variables of the row-pair loop, the list that is handed to the result table,
+the copy of the agent's cell that is moved, the table that is appended to the list of move tables, ...), never by spelling:
+patterns are written with role names (pat.Snips) and the bound names are carried in an environment."""
 from __future__ import annotations
 
 import ast
 from fractions import Fraction
-from typing import Dict, List, Optional
+from typing import Optional
 
 from .. import alg
 from ..cfg import cfg_of
-from ..model import FunctionInfo, AnalysisError
+from ..model import FunctionInfo
+from ..pat import Snips
 from ..report import Ctx
-from ..util import norm, fn_body_nodes, walk_local, kwarg, lexical_guards
+from ..util import norm, fn_body_nodes, lexical_guards, ancestors, name_free
 from .common import names_in
 
 EXPLANATION = (
@@ -24,43 +29,109 @@ EXPLANATION = (
 RULES = ("ALG-5 factor-table algebra; TERM-1 terminal handling; CLAMP-1 clamped one-step move; MOVE-1 candidate / constraint tables; "
          "PAIR-1 collision exclusion; SWAP-1 swap exclusion is not conditional on goal cells; JOIN-1 final product; ACT-1 literal action set")
 
+ONE = {(): Fraction(1)}
+
+
+def _sum_of(*atoms: str):
+    return {((a, 1),): Fraction(1) for a in atoms}
+
+
+def _direct(block: ast.AST, node: ast.AST) -> bool:
+    """`node` (a statement, or the call of an expression statement) is a direct statement of block's body."""
+    return any(st is node or (isinstance(st, ast.Expr) and st.value is node) for st in block.body)
+
+
+def _ordered(S: Snips, op, lpat: str, rpat: str, node: Optional[ast.AST], env) -> Optional[dict]:
+    """node is `L <op> R` with L, R matching the two patterns in this order (no commutation)."""
+    if isinstance(node, ast.BinOp) and isinstance(node.op, op):
+        e = S.m(lpat, node.left, env)
+        if e is not None:
+            return S.m(rpat, node.right, e)
+    return None
+
+
+def _row_pair_roles(S: Snips, fi: FunctionInfo, oth: str):
+    """roles of product / mix: the loop over all pairs of rows (si, oi), the two lists handed to the result table
+    (jsupport receives the merged row, jlogits the joined logit)."""
+    loops = [n for n in ast.walk(fi.node) if isinstance(n, ast.For)]
+    pair = [(n, e) for n in loops for e in [S.m(f"for si, oi in product(self.support, {oth}.support):\n    REST", n)] if e is not None]
+    return loops, pair
+
 
 def run(ctx: Ctx):
     P = ctx.P
     D = P.cls("DiscreteFactorTable")
     # ---------------- ALG-5
     pr = D.methods["product"]
-    lg = [n for n in ast.walk(pr.node) if isinstance(n, ast.Assign) and ast.unparse(n.targets[0]) == "logit"]
-    ok = bool(lg) and alg.normalise(lg[0].value) == {(("self.logit(si)", 1),): Fraction(1), (("other.logit(oi)", 1),): Fraction(1)}
-    ctx.check(ok, "ALG-5", pr, lg[0] if lg else pr.node, "product: logit of a joined row = sum of the two rows' logits", "", f"joined logit is `{norm(lg[0].value) if lg else None}`")
+    oth = pr.positional_params[1]
+    S = Snips(pr)
+    lp, pair = _row_pair_roles(S, pr, oth)
+    loop_ok = bool(lp) and bool(pair) and pair[0][0] is lp[0]          # the first loop of the method is the loop over all row pairs
+    loop, env = pair[0] if pair else (None, {})
+    # the result table and the two lists it is built from: both start empty, the first receives the merged row, the second the joined logit
+    rsol = S.solve(["return DiscreteFactorTable(support=jsupport, logits=jlogits)", "jsupport = []", "jlogits = []"], env)
+    renv = rsol[0] if rsol else env
+    lsol = S.solve(["jlogits.append(logit)", "logit = E_val"], renv, within=loop) if loop is not None else None
+    lenv = lsol[0] if lsol else None
+    lg = [n for n, _ in S.find("logit = E_val", {k: v for k, v in lenv.items() if k != "val"})] if lenv else []
+    want = _sum_of(f"self.logit({env.get('si')})", f"{oth}.logit({env.get('oi')})")
+    ok = bool(lg) and all(alg.normalise(n.value) == want for n in lg)
+    ctx.check(ok, "ALG-5", pr, lg[0] if lg else pr.node, "product: logit of a joined row = sum of the two rows' logits", "",
+              f"joined logit is `{name_free(pr, lg[0].value) if lg else None}`")
     cfg = cfg_of(pr)
     if lg:
-        gs = [ast.unparse(cfg.nodes[b].ast.test) for b, lab in cfg.guards(cfg.node_for(lg[0])) if cfg.nodes[b].kind == "if" and lab.startswith("T")]
-        ctx.check(any(t == "dict_match(si, oi)" for t in gs), "ALG-5", pr, lg[0], "product: rows are joined only when shared variables match", str(gs), "rows are joined without the match test")
-    sk = [n for n in ast.walk(pr.node) if isinstance(n, ast.If) and ast.unparse(n.test).replace(" ", "") == "logit==-np.inf" and any(isinstance(b, ast.Continue) for b in n.body)]
+        gts = [cfg.nodes[b].ast.test for b, lab in cfg.guards(cfg.node_for(lg[0])) if cfg.nodes[b].kind == "if" and lab.startswith("T")]
+        ctx.check(any(S.m("dict_match(si, oi)", t, env) is not None for t in gts), "ALG-5", pr, lg[0], "product: rows are joined only when shared variables match",
+                  str([name_free(pr, t) for t in gts]), "rows are joined without the match test")
+    sk = [n for n in ast.walk(pr.node) if isinstance(n, ast.If) and lenv and S.m("logit == -np.inf", n.test, lenv) is not None
+          and any(isinstance(b, ast.Continue) for b in n.body)]
     ctx.check(bool(sk), "ALG-5", pr, sk[0] if sk else pr.node, "product: rows of zero probability (-inf) are dropped", "", "zero-probability joined rows are kept")
-    lp = [n for n in ast.walk(pr.node) if isinstance(n, ast.For)]
-    ok = bool(lp) and ast.unparse(lp[0].iter).replace(" ", "") == "product(self.support,other.support)"
-    ctx.check(ok, "ALG-5", pr, lp[0] if lp else pr.node, "product: all pairs of rows are considered", "", "join does not enumerate all row pairs")
-    rets = [n for n in fn_body_nodes(pr) if isinstance(n, ast.Return)]
-    ok = any(ast.unparse(r.value).replace(" ", "") == "DiscreteFactorTable(support=jsupport,logits=jlogits)" for r in rets)
-    ctx.check(ok, "ALG-5", pr, pr.node, "product: result built from joined rows and summed logits (normalised by the constructor)", "", "product result construction changed")
+    ctx.check(loop_ok, "ALG-5", pr, lp[0] if lp else pr.node, "product: all pairs of rows are considered", "", "join does not enumerate all row pairs")
+    msol = S.solve(["soi = dict_merge(si, oi)", "jsupport.append(soi)"], lenv, within=loop) if (lenv and rsol and loop is not None) else None
+    ok = rsol is not None and lenv is not None and msol is not None
+    ctx.check(ok, "ALG-5", pr, rsol[1][0] if rsol else pr.node, "product: result built from joined rows and summed logits (normalised by the constructor)", "",
+              "product result construction changed")
     mx = D.methods["mix"]
-    jp = [n for n in ast.walk(mx.node) if isinstance(n, ast.Assign) and ast.unparse(n.targets[0]) == "jprob"]
-    ok = bool(jp) and all(alg.normalise(n.value) == {(("np.exp(self.logit(si))", 1),): Fraction(1), (("np.exp(other.logit(oi))", 1),): Fraction(1)} for n in jp)
+    moth = mx.positional_params[1]
+    SM = Snips(mx)
+    _, mpair = _row_pair_roles(SM, mx, moth)
+    mloop, menv = mpair[0] if mpair else (None, {})
+    mret = SM.solve(["return DiscreteFactorTable(support=jsupport, logits=jlogits)", "jsupport = []", "jlogits = []"], menv)
+    # the names whose value is appended to the result's logit list inside the row-pair loop, and the probability they are the log of
+    jl, jp = [], []
+    jl_ok = jp_ok = mloop is not None and mret is not None
+    if jl_ok:
+        for call, e in SM.find("jlogits.append(jlogit)", mret[0], within=mloop):
+            for n, e2 in SM.find("jlogit = E_val", e):
+                jl.append(n)
+                e3 = SM.m("np.log(jprob)", n.value, e2)
+                if e3 is None:
+                    jl_ok = False
+                    continue
+                for n2, _ in SM.find("jprob = E_sum", e3):
+                    if not any(n2 is x for x in jp):
+                        jp.append(n2)
+    want = _sum_of(f"np.exp(self.logit({menv.get('si')}))", f"np.exp({moth}.logit({menv.get('oi')}))")
+    ok = jp_ok and bool(jp) and all(alg.normalise(n.value) == want for n in jp)
     ctx.check(ok, "ALG-5", mx, jp[0] if jp else mx.node, "mixture: probability of a row = sum of the two rows' probabilities", "", "mixture does not add probabilities")
-    jl = [n for n in ast.walk(mx.node) if isinstance(n, ast.Assign) and ast.unparse(n.targets[0]) == "jlogit"]
-    ctx.check(bool(jl) and all(ast.unparse(n.value) == "np.log(jprob)" for n in jl), "ALG-5", mx, jl[0] if jl else mx.node, "mixture: stored as log of the summed probability", "", "mixture logit is not log(sum of probabilities)")
+    ctx.check(jl_ok and bool(jl), "ALG-5", mx, jl[0] if jl else mx.node, "mixture: stored as log of the summed probability", "", "mixture logit is not log(sum of probabilities)")
     ml = D.methods["__mul__"]
+    num = ml.positional_params[1]
+    SL = Snips(ml)
     comp = [n for n in ast.walk(ml.node) if isinstance(n, ast.ListComp)]
-    ok = bool(comp) and alg.normalise(comp[0].elt) == {(("logit", 1),): Fraction(1), (("np.log(num)", 1),): Fraction(1)} and ast.unparse(comp[0].generators[0].iter) == "self.logits"
+    cenv = SL.m("[E_elt for lg in self.logits]", comp[0]) if comp else None
+    ok = cenv is not None and alg.normalise(cenv["elt"]) == _sum_of(cenv["lg"], f"np.log({num})")
     ctx.check(ok, "ALG-5", ml, comp[0] if comp else ml.node, "scaling: logit + log(num) for every row", "", "scaling does not add log(num) to every logit")
-    ctx.check("DiscreteFactorTable(support=self.support, logits=mlogits)" in ast.unparse(ml.node), "ALG-5", ml, ml.node, "scaling keeps the support", "", "scaling changes the support")
+    # the list of scaled logits (the name the comprehension is assigned to) goes with the unchanged support into the result
+    scaled = [e for n, e in SL.find("mlogits = E_c") if comp and e["c"] is comp[0]]
+    ok = any(SL.has("DiscreteFactorTable(support=self.support, logits=mlogits)", {"mlogits": e["mlogits"]}) for e in scaled)
+    ctx.check(ok, "ALG-5", ml, ml.node, "scaling keeps the support", "", "scaling changes the support")
     a_, o_ = D.methods["__and__"], D.methods["__or__"]
-    ctx.check("return self.product(other)" in ast.unparse(a_.node) and "return self.mix(other)" in ast.unparse(o_.node), "ALG-5", a_, a_.node, "& is the product, | is the mixture", "", "operator wiring changed")
+    ok = Snips(a_).has(f"return self.product({a_.positional_params[1]})") and Snips(o_).has(f"return self.mix({o_.positional_params[1]})")
+    ctx.check(ok, "ALG-5", a_, a_.node, "& is the product, | is the mixture", "", "operator wiring changed")
     init = D.methods["__init__"]
-    isrc = ast.unparse(init.node)
-    ok = "probs = softmax(scores)" in isrc and "scores = np.log(probs)" in isrc
+    SI = Snips(init)               # probs / scores are parameters of the constructor (part of its interface)
+    ok = "probs" in init.positional_params and "scores" in init.positional_params and SI.has("probs = softmax(scores)") and SI.has("scores = np.log(probs)")
     ctx.check(ok, "ALG-5", init, init.node, "constructor: probabilities are the softmax of the scores (and scores the log of given probabilities)", "", "constructor normalisation changed")
     # ---------------- grid game
     G = P.cls("TabularGridGame")
@@ -75,26 +146,37 @@ def run(ctx: Ctx):
               "the terminal / goal tests do not come first or do not return the terminal table")
     jr = G.methods["joint_rewards"]
     jb = jr.node.body
-    ok = len(jb) >= 2 and isinstance(jb[0], ast.Assign) and "0 for an in self.agent_names" in ast.unparse(jb[0].value) and isinstance(jb[1], ast.If) \
-        and ast.unparse(jb[1].test).replace(" ", "") == f"self.is_terminal({jr.positional_params[1]})orself.is_terminal({jr.positional_params[3]})" \
-        and isinstance(jb[1].body[0], ast.Return) and ast.unparse(jb[1].body[0].value) == ast.unparse(jb[0].targets[0])
+    SJ = Snips(jr)
+    jenv = SJ.m("jr = {an: 0 for an in self.agent_names}", jb[0]) if jb else None          # the zero map, by what it is
+    ok = jenv is not None and len(jb) >= 2 and isinstance(jb[1], ast.If) \
+        and SJ.m(f"self.is_terminal({jr.positional_params[1]}) or self.is_terminal({jr.positional_params[3]})", jb[1].test) is not None \
+        and SJ.m("return jr", jb[1].body[0], jenv) is not None
     ctx.check(ok, "TERM-1", jr, jb[1] if len(jb) > 1 else jr.node, "rewards are the zero map when either end is terminal", "", "terminal transitions are not paid zero")
     it = G.methods["is_terminal"]
     ctx.check("get('isTerminal', False)" in ast.unparse(it.node), "TERM-1", it, it.node, "is_terminal reads the isTerminal flag", "", "terminal predicate changed")
+    # --- roles of the per-agent part: the loop over agents (an), the moved copy of the agent's cell (agent), the agent's action
+    SG = Snips(nsd)
+    aloop, R, act = None, {}, None
+    for n, e in SG.find("for an in self.agent_names:\n    REST"):
+        r = SG.solve([f"agent = copy.deepcopy({s_p}[an])"], e, within=n)
+        if r is not None and all(_direct(n, x) for x in r[1]):
+            aloop, R = n, r[0]
+            act = next((e2 for n2, e2 in SG.find(f"agentaction = {ja_p}[an]", R, within=n) if _direct(n, n2)), None)
+            break
     # clamp
     for axis, ext in (("x", "self.width"), ("y", "self.height")):
-        st = [n for n in ast.walk(nsd.node) if isinstance(n, ast.Assign) and ast.unparse(n.targets[0]) == f"agent['{axis}']"]
+        st = [n for n, _ in SG.find(f"agent['{axis}'] = E_v", R, within=aloop)] if aloop is not None else []
         ok = False
         detail = ""
         if st:
             v = st[0].value
-            detail = ast.unparse(v)
-            if isinstance(v, ast.Call) and ast.unparse(v.func) == "max" and len(v.args) == 2:
-                inner = [a for a in v.args if isinstance(a, ast.Call) and ast.unparse(a.func) == "min"]
+            detail = name_free(nsd, v, depth=0)
+            if isinstance(v, ast.Call) and SG.m("max", v.func) is not None and len(v.args) == 2 and not v.keywords:
+                inner = [a for a in v.args if isinstance(a, ast.Call) and SG.m("min", a.func) is not None and not a.keywords]
                 zero = [a for a in v.args if isinstance(a, ast.Constant) and a.value == 0]
                 if inner and zero and len(inner[0].args) == 2:
-                    ia = [ast.unparse(a).replace(" ", "") for a in inner[0].args]
-                    ok = f"{ext}-1" in ia and f"agent['{axis}']+agentaction['{axis}']" in ia
+                    ia = inner[0].args
+                    ok = any(SG.m(f"{ext} - 1", a) is not None for a in ia) and act is not None and any(SG.m(f"agent['{axis}'] + agentaction['{axis}']", a, act) is not None for a in ia)
         ctx.check(ok, "CLAMP-1", nsd, st[0] if st else nsd.node, f"{axis}' = max(min({axis} + d{axis}, {ext} - 1), 0)", detail,
                   f"the moved {axis} coordinate `{detail}` is not clamped to [0, {ext} - 1] around {axis} + action[{axis}]: an agent could leave the grid or move more than one cell")
     ja = G.methods["joint_actions"]
@@ -107,60 +189,102 @@ def run(ctx: Ctx):
             vals.append((kv.get("x"), kv.get("y")))
         ok = sorted(vals) == sorted([(0, 0), (1, 0), (-1, 0), (0, 1), (0, -1)])
     ctx.check(ok, "ACT-1", ja, lits[0] if lits else ja.node, "literal action set = stay and the four unit moves", "", "the action set contains a move of more than one cell or a diagonal")
-    # candidate and constraint tables
-    mv = [n for n in ast.walk(nsd.node) if isinstance(n, ast.Assign) and ast.unparse(n.targets[0]) == "agentMove" and isinstance(n.value, ast.Call) and ast.unparse(n.value.func) == "Pr"]
+    # candidate and constraint tables: the move table (mv) is what each round of the agent loop appends to the list of tables (dists)
+    if aloop is not None:
+        for n, e in SG.find("dists.append(mv)", R, within=aloop):
+            if _direct(aloop, n):
+                R = e
+                break
+    stay_move = f"[{{an: {s_p}[an]}}, {{an: agent}}]"
+    mv = [n for n, _ in SG.find("mv = Pr(REST, REST=ANY)", R, within=aloop)] if aloop is not None and "mv" in R else []
     if mv:
         c = mv[0].value
-        sup = [ast.unparse(e).replace(" ", "") for e in c.args[0].elts] if c.args and isinstance(c.args[0], ast.List) else []
-        pk = kwarg(c, "probs")
-        ok = sup == [f"{{an:{s_p}[an]}}", "{an:agent}"] and isinstance(pk, ast.List) and alg.add(alg.normalise(pk.elts[0]), alg.normalise(pk.elts[1])) == {(): Fraction(1)}
-        ctx.check(ok, "MOVE-1", nsd, mv[0], "candidate cells are {stay, clamped move} with weights summing to 1", ast.unparse(c), f"candidate table is `{norm(c, 80)}`")
+        e = SG.m(f"Pr({stay_move}, probs=[E_p0, E_p1])", c, R)
+        ok = e is not None and alg.add(alg.normalise(e["p0"]), alg.normalise(e["p1"])) == ONE
+        ctx.check(ok, "MOVE-1", nsd, mv[0], "candidate cells are {stay, clamped move} with weights summing to 1", name_free(nsd, c, depth=0), f"candidate table is `{name_free(nsd, c, depth=0, width=80)}`")
     else:
         ctx.violation("MOVE-1", nsd, nsd.node, "per-agent candidate table", "no per-agent move table")
-    cons = [n for n in ast.walk(nsd.node) if isinstance(n, ast.Assign) and ast.unparse(n.targets[0]) in ("obsConstraint", "wallConstraint")]
-    for cn in cons:
-        c = cn.value
-        sup = [ast.unparse(e).replace(" ", "") for e in c.args[0].elts] if c.args and isinstance(c.args[0], ast.List) else []
-        pk = kwarg(c, "probs")
-        ok = sup == [f"{{an:{s_p}[an]}}", "{an:agent}"] and isinstance(pk, ast.List) and [ast.unparse(e) for e in pk.elts] == ["1", "0"]
-        ctx.check(ok, "MOVE-1", nsd, cn, f"{ast.unparse(cn.targets[0])}: zero mass on the moved cell, all mass on staying", ast.unparse(c),
-                  f"constraint table `{norm(c, 70)}` does not forbid the moved cell")
-    ands = [n for n in ast.walk(nsd.node) if isinstance(n, ast.AugAssign) and isinstance(n.op, ast.BitAnd) and ast.unparse(n.target) == "agentMove"]
-    ctx.check(len(ands) >= 2, "MOVE-1", nsd, ands[0] if ands else nsd.node, "obstacle and wall constraints are multiplied into the move table", "", "a constraint is not applied to the move table")
-    fn = [n for n in ast.walk(nsd.node) if isinstance(n, ast.Assign) and ast.unparse(n.targets[0]) == "agentMove" and isinstance(n.value, ast.BinOp) and isinstance(n.value.op, ast.BitOr)]
+
+    def over(node) -> str:
+        """what the innermost loop around `node` (inside the agent loop) ranges over."""
+        for anc in ancestors(nsd, node):
+            if anc is aloop:
+                break
+            if isinstance(anc, ast.For):
+                return {"self.obstacles": "obstacle", "self.walls": "wall", "self.fences": "fence"}.get(norm(anc.iter), "other")
+        return "agent"
+    ands = [n for n in (ast.walk(aloop) if aloop is not None and "mv" in R else []) if isinstance(n, ast.AugAssign) and isinstance(n.op, ast.BitAnd) and SG.m("mv", n.target, R) is not None]
+    for a in ands:
+        role = over(a)
+        if isinstance(a.value, ast.Name):            # the constraint table is what the name multiplied into the move table was assigned
+            tabs = [(n, n.value) for n, _ in SG.find("c = E_v", {"c": a.value.id}, within=aloop)]
+        else:
+            tabs = [(a, a.value)]
+        if not tabs:
+            ctx.violation("MOVE-1", nsd, a, f"{role} constraint: zero mass on the moved cell, all mass on staying", "the constraint multiplied into the move table is not a table built in the agent loop")
+        for cn, c in tabs:
+            ok = SG.m(f"Pr({stay_move}, probs=[1, 0])", c, R) is not None
+            ctx.check(ok, "MOVE-1", nsd, cn, f"{role} constraint: zero mass on the moved cell, all mass on staying", name_free(nsd, c, depth=0),
+                      f"constraint table `{name_free(nsd, c, depth=0, width=70)}` does not forbid the moved cell")
+    ok = len(ands) >= 2 and {"obstacle", "wall"} <= {over(a) for a in ands}
+    ctx.check(ok, "MOVE-1", nsd, ands[0] if ands else nsd.node, "obstacle and wall constraints are multiplied into the move table", "", "a constraint is not applied to the move table")
+    fn = [n for n in (ast.walk(aloop) if aloop is not None and "mv" in R else []) if isinstance(n, ast.Assign) and len(n.targets) == 1 and SG.m("mv", n.targets[0], R) is not None
+          and isinstance(n.value, ast.BinOp) and isinstance(n.value.op, ast.BitOr)]
     if fn:
-        l, r = fn[0].value.left, fn[0].value.right
-        wt = lambda x: alg.normalise(x.right) if isinstance(x, ast.BinOp) and isinstance(x.op, ast.Mult) else {(): Fraction(1)}
-        ok = alg.add(wt(l), wt(r)) == {(): Fraction(1)} and ast.unparse(l.left) == "agentMove" and ast.unparse(r.left) == "fenceEffect" and ast.unparse(l.right) == "self.fence_success_prob"
-        ctx.check(ok, "MOVE-1", nsd, fn[0], "fence: move with the success probability, stay with the complement", ast.unparse(fn[0].value), f"fence mixture is `{norm(fn[0].value, 80)}`")
+        v = fn[0].value
+        e = _ordered(SG, ast.BitOr, "mv * self.fence_success_prob", "fe * E_w", v, R)
+        w = alg.normalise(e["w"]) if e is not None else None
+        if e is None:
+            e = _ordered(SG, ast.BitOr, "mv * self.fence_success_prob", "fe", v, R)
+            w = dict(ONE)
+        ok = e is not None and alg.add(alg.normalise(ast.parse("self.fence_success_prob", mode="eval").body), w) == ONE
+        if ok:                                       # the other component is the table that keeps the agent where it is
+            stay = [n for n, _ in SG.find("fe = E_v", {"fe": e["fe"]}, within=aloop)]
+            ok = bool(stay) and all(SG.m(f"Pr([{{an: {s_p}[an]}}])", n.value, R) is not None for n in stay)
+        ctx.check(ok, "MOVE-1", nsd, fn[0], "fence: move with the success probability, stay with the complement", name_free(nsd, v, depth=0), f"fence mixture is `{name_free(nsd, v, depth=0, width=80)}`")
+    # --- roles of the joint part: product of the move tables (ad), interaction table (ie) built from rows (inter) and logits (ilog),
+    #     the loop over joint successors (ns) with its running logit, the loop over pairs of agents (an0, an1)
+    J = {"dists": R["dists"]} if "dists" in R else {}
+    jsol = SG.solve(["ad = reduce(lambda a, b: a & b, dists)", "ie = Pr(inter, logits=ilog)"], J)
+    J = jsol[0] if jsol else J
+    nloop, N = None, None
+    for n, e in SG.find("for ns in ad.support:\n    REST", J):
+        r = SG.solve(["inter.append(ns)", "ilog.append(logit)", "logit = 0"], e, within=n)
+        if r is not None and all(_direct(n, x) for x in r[1]):
+            nloop, N = n, r[0]
+            break
+    ploops = [n for n in ast.walk(nsd.node) if isinstance(n, ast.For) and SG.m("combinations(self.agent_names, r=2)", n.iter) is not None]
+    ploop, PE = None, None
+    if nloop is not None:
+        for n, e in SG.find("for an0, an1 in combinations(self.agent_names, r=2):\n    REST", N, within=nloop):
+            ploop, PE = n, e
+            break
     # pairwise interactions
-    cfg = cfg_of(nsd)
-    pen = [n for n in ast.walk(nsd.node) if isinstance(n, ast.AugAssign) and ast.unparse(n.target) == "logit" and "-np.inf" in ast.unparse(n.value)]
+    pen = [n for n in (ast.walk(ploop) if ploop is not None else []) if isinstance(n, ast.AugAssign) and isinstance(n.op, ast.Add)
+           and SG.m("logit", n.target, PE) is not None and "-np.inf" in ast.unparse(n.value)]
+    per_pair = {x.id for st in (ploop.body if ploop is not None else []) for x in ast.walk(st) if isinstance(x, ast.Name) and isinstance(x.ctx, ast.Store)}
     coll, swap = [], []
     for n in pen:
-        lg_ = [(ast.unparse(t).replace(" ", ""), lab) for t, lab in lexical_guards(nsd, n)]
-        gs = lg_
-        direct = [lg_[0][0]] if lg_ and lg_[0][1] == "T" else []
-        under_skip = any(t == "notskip" and lab == "T" for t, lab in gs)
-        if any(t == "self.same_location(ns[an0],ns[an1])" for t in direct):
+        gs = lexical_guards(nsd, n)
+        direct = [gs[0][0]] if gs and gs[0][1] == "T" else []
+        # conditional on state computed per pair (the goal-cell flag): an outer guard that reads a name assigned inside the pair loop
+        under_skip = any(names_in(t) & per_pair for t, _ in gs[1:])
+        if any(SG.m("self.same_location(ns[an0], ns[an1])", t, PE) is not None for t in direct):
             coll.append((n, under_skip))
-        if any(t == f"self.same_location(ns[an0],{s_p}[an1])andself.same_location(ns[an1],{s_p}[an0])" for t in direct):
+        if any(SG.m(f"self.same_location(ns[an0], {s_p}[an1]) and self.same_location(ns[an1], {s_p}[an0])", t, PE) is not None for t in direct):
             swap.append((n, under_skip))
     ctx.check(bool(coll), "PAIR-1", nsd, coll[0][0] if coll else nsd.node, "two agents in the same (non-goal) cell get logit -inf", "", "no collision exclusion")
     ctx.check(bool(swap), "SWAP-1", nsd, swap[0][0] if swap else nsd.node, "two agents exchanging cells get logit -inf", "", "no swap exclusion")
     if swap:
         ok = any(not us for _, us in swap)
         ctx.check(ok, "SWAP-1", nsd, swap[0][0], "the swap exclusion applies regardless of goal cells (not only under `not skip`)", "",
-                  "every swap exclusion is conditional on `not skip`: when a goal cell is involved (agents standing on each other's goals) two agents can swap cells")
-    lg2 = [n for n in ast.walk(nsd.node) if isinstance(n, ast.For) and ast.unparse(n.iter).replace(" ", "") == "combinations(self.agent_names,r=2)"]
-    ctx.check(bool(lg2), "PAIR-1", nsd, lg2[0] if lg2 else nsd.node, "interactions are evaluated for every pair of agents", "", "pairwise loop changed")
+                  "every swap exclusion is conditional on the goal-cell flag: when a goal cell is involved (agents standing on each other's goals) two agents can swap cells")
+    ctx.check(bool(ploops), "PAIR-1", nsd, ploops[0] if ploops else nsd.node, "interactions are evaluated for every pair of agents", "", "pairwise loop changed")
     rets = [n for n in fn_body_nodes(nsd) if isinstance(n, ast.Return)]
-    ok = any(ast.unparse(r.value).replace(" ", "") == "agentDist&interactionEffects" for r in rets)
+    ok = any(_ordered(SG, ast.BitAnd, "ad", "ie", r.value, J) is not None for r in rets)
     ctx.check(ok, "JOIN-1", nsd, rets[-1] if rets else nsd.node, "result = product of the independent move tables with the interaction table", "", "final product changed")
-    src = ast.unparse(nsd.node)
-    ok = "agentDist = reduce(lambda a, b: a & b, agentMoveDists)" in src and "interactionEffects = Pr(interactions, logits=interactionLogits)" in src
-    ctx.check(ok, "JOIN-1", nsd, nsd.node, "independent move tables are combined by the factor product; interactions enter as logits", "", "joint construction changed")
-    ctx.check("for ns in agentDist.support" in src and "interactions.append(ns)" in src and "interactionLogits.append(logit)" in src, "JOIN-1", nsd, nsd.node,
+    ctx.check(jsol is not None, "JOIN-1", nsd, nsd.node, "independent move tables are combined by the factor product; interactions enter as logits", "", "joint construction changed")
+    ctx.check(nloop is not None, "JOIN-1", nsd, nsd.node,
               "one interaction logit per joint successor", "", "interaction rows are not aligned with the joint successors")
     for rr, k in (("ALG-5", 10), ("TERM-1", 3), ("CLAMP-1", 2), ("ACT-1", 1), ("MOVE-1", 4), ("PAIR-1", 2), ("SWAP-1", 2), ("JOIN-1", 3)):
         ctx.require(rr, k)
